@@ -15,6 +15,7 @@ def sh(cmd, cwd=None, env=ENV, timeout=7200):
     return r.returncode, r.stdout + r.stderr
 def main():
     src, sid = sys.argv[1], sys.argv[2]
+    src = os.path.abspath(src)
     meta = json.load(open(os.path.join(src, "meta.json")))
     checks = sys.argv[3:] or [meta["property"]]
     tier = os.environ.get("SEED_TIER", "quick")
@@ -50,7 +51,8 @@ def main():
         sh(f"git -C /repo worktree remove --force {wt}")
         shutil.rmtree(f"{ROOT}/.build/alt-seed-{sid}", ignore_errors=True)
         dst = f"{ROOT}/seeded/{sid}"; os.makedirs(dst, exist_ok=True)
-        shutil.copy(os.path.join(src, "patch.diff"), dst); shutil.copy(os.path.join(src, "demo_test.go"), dst)
+        if os.path.realpath(src) != os.path.realpath(dst):
+            shutil.copy(os.path.join(src, "patch.diff"), dst); shutil.copy(os.path.join(src, "demo_test.go"), dst)
         old = {}
         if os.path.exists(os.path.join(dst, "meta.json")):
             old = json.load(open(os.path.join(dst, "meta.json"))).get("verification", {}).get("checks", {})
